@@ -29,7 +29,8 @@ impl<$TP> Handle<$G, Message<Never, Never>> for UpTb {
         else { uptb_gate(*self, k, h, g, c, m) }
     }
     open spec fn post(&self, g: $G, m: Message<Never, Never>) -> $G { set_up(g, self.i as int, up_send(g.ups[self.i as int], m)) }
-    open spec fn needs_inv(&self, g: $G, m: Message<Never, Never>) -> bool { m is Pull }
+    open spec fn needs_inv(&self, g: $G, m: Message<Never, Never>, p: int) -> bool { m is Pull }
+    open spec fn extra(&self, h: Self::HH, g: $G, c: Self::CC, m: Message<Never, Never>) -> bool { true }
 }
 impl UpTb {
     /// the operator talks to member `self.i` on the talkback it was greeted with
@@ -37,12 +38,13 @@ impl UpTb {
     pub fn call<$TP>(&self, h: &mut $HEAP, g: &mut Ghost<$G>, c: &Cap, m: Message<Never, Never>)
         requires
             GATES!(self, *old(h), old(g)@, *c, m),
-            self.needs_inv(old(g)@, m) ==> INV!(*old(h), self.post(old(g)@, m), *c),
+            self.extra(*old(h), old(g)@, *c, m),
+            self.needs_inv(old(g)@, m, $P) ==> INV!(*old(h), self.post(old(g)@, m), *c),
         ensures
-            self.needs_inv(old(g)@, m) ==> INV!(*final(h), final(g)@, *c),
-            self.needs_inv(old(g)@, m) ==> mono(*old(h), self.post(old(g)@, m), *final(h), final(g)@),
-            self.needs_inv(old(g)@, m) ==> up_rel(self.i as int, *old(h), self.post(old(g)@, m), *final(h), final(g)@, *c),
-            !self.needs_inv(old(g)@, m) ==> *final(h) == *old(h) && final(g)@ == self.post(old(g)@, m),
+            self.needs_inv(old(g)@, m, $P) ==> INV!(*final(h), final(g)@, *c),
+            self.needs_inv(old(g)@, m, 0) ==> mono(*old(h), self.post(old(g)@, m), *final(h), final(g)@),
+            self.needs_inv(old(g)@, m, 0) ==> up_rel(self.i as int, *old(h), self.post(old(g)@, m), *final(h), final(g)@, *c),
+            !self.needs_inv(old(g)@, m, 0) ==> *final(h) == *old(h) && final(g)@ == self.post(old(g)@, m),
     {
         proof { g@ = self.post(g@, m); }
         if matches!(m, Message::Terminate | Message::Error(_)) { return; }   // a terminated source is silent
@@ -89,7 +91,8 @@ impl<$TP> Handle<$G, Message<Never, Tok_source_talkback>> for UpSrc {
         else { upsrc_gate(*self, k, h, g, c, m) }
     }
     open spec fn post(&self, g: $G, m: Message<Never, Tok_source_talkback>) -> $G { set_up(g, self.i as int, UpLink { phase: Up::Subscribing, ..g.ups[self.i as int] }) }
-    open spec fn needs_inv(&self, g: $G, m: Message<Never, Tok_source_talkback>) -> bool { true }
+    open spec fn needs_inv(&self, g: $G, m: Message<Never, Tok_source_talkback>, p: int) -> bool { true }
+    open spec fn extra(&self, h: Self::HH, g: $G, c: Self::CC, m: Message<Never, Tok_source_talkback>) -> bool { sub_pre(self.i as int, h, self.post(g, m), c, m) }
 }
 impl UpSrc {
     /// the operator subscribes to member `self.i`
@@ -97,8 +100,8 @@ impl UpSrc {
     pub fn call<$TP>(&self, h: &mut $HEAP, g: &mut Ghost<$G>, c: &Cap, m: Message<Never, Tok_source_talkback>)
         requires
             GATES!(self, *old(h), old(g)@, *c, m),
-            self.needs_inv(old(g)@, m) ==> INV!(*old(h), self.post(old(g)@, m), *c),
-            sub_pre(self.i as int, *old(h), self.post(old(g)@, m), *c, m),
+            self.extra(*old(h), old(g)@, *c, m),
+            self.needs_inv(old(g)@, m, $P) ==> INV!(*old(h), self.post(old(g)@, m), *c),
         ensures
             INV!(*final(h), final(g)@, *c),
             mono(*old(h), self.post(old(g)@, m), *final(h), final(g)@),
